@@ -50,6 +50,12 @@ class Finding:
     def key(self, unit):
         return "C29:%s:%s" % (unit, self.slug)
 
+    def witness_raw(self, coll):
+        w = self.witness
+        if isinstance(w, dict):
+            w = w.get("*") or list(w.values())[0]
+        return w
+
     def witness_for(self, unit):
         w = self.witness
         if isinstance(w, dict):
@@ -142,9 +148,10 @@ FINDINGS = [
             W(3, "flat", "b 0 0 1 int sum"),
             "with count < inter_comm_size every segment offset is 0 == last_segment_ptr, so every step sends and reduces the "
             "whole remainder again"),
-    Finding("allreduce/smp_rsag_rab", "count%nodes!=0:wrong-result", P("pow2 and M > 1 and c % M != 0"), {WRONG},
-            W(2, "flat", "b 0 0 1 int sum"),
-            "recursive halving over curr_count = count/2, count/4, ... loses the remainders"),
+    Finding("allreduce/smp_rsag_rab", "count%(2*nodes)!=0:wrong-result", P("pow2 and M > 1 and c % (2 * M) != 0"), {WRONG},
+            W(2, "flat", "b 0 0 2 int sum"),
+            "recursive halving over curr_count = count/2, count/4, ... (one halving too many, doubled again for the "
+            "allgather) loses the remainders: only counts that are multiples of 2*inter_comm_size come out right"),
     Finding("allreduce/rab1", "np=1:uninitialised-recv_cnt:crash", P("np == 1"), {CRASH}, W(1, "flat", "b 0 0 1 int sum"),
             "with one rank the halving loop is not entered and recv_cnt is used uninitialised in memcpy/allgather"),
     Finding("allreduce/rab1", "dt=holes:memcpy-over-extent:stray-write", P("holes and c > 0 and np > 1 and pow2"), {STRAY},
@@ -160,17 +167,18 @@ FINDINGS = [
     Finding(OMPI_REDUCE + " reduce/ompi", "np=1:crash-or-unset-result", P("np == 1 and c > 0"), {CRASH, WRONG, DEAD},
             W(1, "flat", "b 0 0 1 int sum"),
             "the generic ompi reduce does not handle a communicator of one rank (sends to rank -333, or leaves recvbuf unset)"),
-    Finding("reduce/flat_tree", "MPI_IN_PLACE-dereferenced:crash", P("mode == 'ip'"), {CRASH}, W(2, "flat", "ip 0 0 1 int sum"),
+    Finding("reduce/flat_tree", "MPI_IN_PLACE-dereferenced:crash", P("mode == 'ip' and c > 0"), {CRASH}, W(2, "flat", "ip 0 0 1 int sum"),
             "the root uses sbuf as a buffer without testing for MPI_IN_PLACE"),
     Finding("reduce/NTSL", "np=1:deadlock", P("np == 1 and mode != 'ip'"), {DEAD, CRASH}, W(1, "flat", "b 0 0 1 int sum"),
             "with one rank the root posts a receive from itself"),
-    Finding("reduce/NTSL reduce/arrival_pattern_aware", "MPI_IN_PLACE-dereferenced:crash", P("mode == 'ip'"), {CRASH},
-            W(2, "flat", "ip 0 0 1 int sum"), "sendrecv(buf, ...) copies from buf without testing for MPI_IN_PLACE"),
-    Finding("reduce/NTSL reduce/arrival_pattern_aware", "nonroot-recvbuf-used-as-scratch", P("np > 1 and mode in ('b', 'nn')"),
+    Finding("reduce/NTSL reduce/arrival_pattern_aware reduce/rab", "MPI_IN_PLACE-dereferenced:crash",
+            P("mode == 'ip' and c > 0"), {CRASH},
+            W(2, "flat", "ip 0 0 1 int sum"), "the send buffer is read without testing for MPI_IN_PLACE"),
+    Finding("reduce/NTSL reduce/arrival_pattern_aware", "nonroot-recvbuf-used-as-scratch", P("np > 1 and c > 0"),
             {NONROOT, CRASH}, {"*": W(2, "flat", "b 0 0 1 int sum")},
             "every rank accumulates into its rbuf, which MPI makes significant only at the root: the caller's buffer is "
             "overwritten on the other ranks, SIGSEGV when it is NULL there"),
-    Finding("reduce/scatter_gather", "nonroot-recvbuf-used-as-scratch", P("np > 1 and mode in ('b', 'ip')"), {NONROOT},
+    Finding("reduce/scatter_gather", "nonroot-recvbuf-used-as-scratch", P("np > 1 and c > 0 and mode in ('b', 'ip')"), {NONROOT},
             W(2, "flat", "b 0 0 1 int sum"),
             "a temporary buffer is only allocated when recvbuf is NULL; a non-NULL recvbuf of a non-root rank is overwritten"),
     Finding("reduce/scatter_gather", "dt=holes:memcpy-over-extent:stray-write", P("holes and c > 0"), {STRAY},
@@ -240,7 +248,75 @@ FINDINGS = [
             "the parent request of a non-blocking reduction is built on the receive buffer with the user's datatype; for a "
             "non-contiguous type Request keeps a packed copy in buf_ and finish_nbc_requests applies the operator to that copy "
             "with the unpacked layout: wrong result, heap corruption", crash=False),
+    # -------------------------------------------------------------------- selectors (ompi, mpich, mvapich2, impi) -----
+    # A selector picks an algorithm from the sizes; the predicates below are those of the algorithm it hands the call to
+    # (not narrowed to the size ranges of the selection tables).
+    Finding("allreduce/impi", "count=0:selects-ompi_ring_segmented:SIGFPE", P("c == 0 and np > 1"), {CRASH},
+            W(2, "flat", "b 0 0 0 int sum"), "for an empty message the Intel table selects allreduce__ompi_ring_segmented, "
+            "which divides by zero", via="allreduce/ompi_ring_segmented"),
+    Finding("allreduce/impi", "np=nonpow2:selects-rab1:abort", P("not pow2 and c > 0"), {CRASH},
+            W(3, "flat", "b 0 0 4099 int sum"), "the Intel table selects allreduce__rab1 whatever the communicator size; rab1 "
+            "throws 'can't be used with non power of two number of processes'", via="allreduce/rab1"),
+    Finding("bcast/impi", "one-rank-per-host:selects-SMP_linear", P("K == 1 and np > 1"), {CRASH, DEAD, WRONG, STRAY, ERR},
+            W(2, "flat", "b 0 0 1 int none", "b 1 0 1 int none"), "the Intel table selects bcast__SMP_linear, which is wrong "
+            "with one rank per host", via="bcast/SMP_linear"),
+    Finding("reduce_scatter/ompi reduce_scatter/impi reduce_scatter/mvapich2", "zero-recvcount:selects-recursivehalving:wrong-result",
+            P("np > 1 and total > 0 and min(cnts) == 0"), {WRONG, CRASH, DEAD},
+            W(2, "flat", "b 0 1 3 int sum"), "the selector hands calls with a zero recvcount to "
+            "reduce_scatter__ompi_basic_recursivehalving (in smpi_openmpi_selector.cpp the `zerocounts` test of Open MPI is "
+            "commented out)", crash=False, via="reduce_scatter/ompi_basic_recursivehalving"),
+    Finding("scatter/ompi", "root!=0-or-in-place:selects-ompi_linear_nb", P("np > 1 and (root != 0 or mode == 'ip')"),
+            {DEAD, WRONG, CRASH}, W(2, "flat", "b 1 0 0 int none"),
+            "for some sizes the selector uses scatter__ompi_linear_nb, whose root stops after its first send",
+            via="scatter/ompi_linear_nb"),
+    Finding("scatter/mvapich2 scatter/impi", "MPI_IN_PLACE:sendbuf-modified", P("mode == 'ip' and np > 1 and c > 0"),
+            {SENDMOD, WRONG}, W(6, "blk2", "ip 1 0 1 int none"),
+            "the selector uses the mvapich2 two-level scatter, which overwrites the root's send buffer with MPI_IN_PLACE",
+            via="scatter/mvapich2_two_level_direct"),
+    Finding("alltoall/mpich", "odd-np-large-message:selects-pair:abort", P("np % 2 == 1 and np > 1 and nbytes >= 32768"), {CRASH},
+            W(3, "flat", "b 0 0 8192 int none"), "for blocks of 32 kB and more and an odd communicator size the MPICH "
+            "selector calls alltoall__pair, which only accepts powers of two (throws)", via="alltoall/pair"),
+    Finding("alltoallv/ompi", "np=3:selects-pair:abort", P("np == 3"), {CRASH}, W(3, "flat", "b 0 0 1 int none"),
+            "for communicators of less than 4 ranks the Open MPI selector calls alltoallv__pair, which only accepts powers of "
+            "two (throws)", via="alltoallv/pair"),
 ]
+
+
+def _automatic_rows():
+    """smpi/<coll>:automatic runs every algorithm of the table one after the other on the caller's buffers (and keeps
+    the result of the last one): it inherits every crash, deadlock and stray write of every algorithm, exceptions other
+    than std::exception included (xbt_assert of reduce_scatter mpich_noncomm), and re-reduces a buffer that was already
+    reduced in place. One row per collective; its predicate is the union of the rows of the algorithms of that table."""
+    extra = {
+        "reduce_scatter": P("not pow2 or not uniformcnt"),      # xbt_assert of mpich_noncomm (not catchable)
+        "reduce": P("mode == 'ip' and c > 0"),                  # second algorithm reduces the already reduced buffer again
+        "barrier": P("np != 2"),
+    }
+    out = []
+    for coll in G.TABLE_CALLS:
+        base = [f for f in FINDINGS if not f.via and any(u.split("/")[0] == coll and not u.endswith("/automatic") for u in f.units)]
+        if not base and coll not in extra:
+            continue
+        preds = [f.pred for f in base] + ([extra[coll]] if coll in extra else [])
+        kinds = set().union(*[f.kinds for f in base]) | {CRASH, WRONG}
+
+        def pred(np, layout, case, preds=preds):
+            return any(p(np, layout, case) for p in preds)
+        wit = None
+        for f in base:
+            if f.crash:
+                wit = f.witness_raw(coll)
+                break
+        if wit is None and base:
+            wit = base[0].witness_raw(coll)
+        out.append(Finding(coll + "/automatic", "runs-every-algorithm-of-the-table:inherits-their-failures", pred, kinds, wit,
+                           "the automatic selector executes every algorithm of the table in turn on the caller's buffers; "
+                           "on inputs for which one of them crashes, deadlocks or writes a wrong buffer so does `automatic`",
+                           crash=True))
+    return out
+
+
+FINDINGS += _automatic_rows()
 
 
 # --------------------------------------------------------------------------------------------------------------------
